@@ -190,9 +190,15 @@ pub fn run_case(case: &Case, names: &HashMap<String, u16>) {
     kanata_keyberon::layout::verif::LOST_CUSTOM_RELEASES.store(0, std::sync::atomic::Ordering::Relaxed);
     let res = std::panic::catch_unwind(std::panic::AssertUnwindSafe(|| {
         let mut pending: Vec<String> = vec![];
+        // loop mode (token B0 / B1): like the processing loop, ask can_block_update_idle_waiting before every
+        // millisecond; B1 honours the answer (a blocked millisecond runs no tick), B0 ticks regardless
+        let mut loop_mode: Option<bool> = None;
         for tok in case.hist.iter() {
             let (kind, rest) = tok.split_at(1);
             match kind {
+                "B" => {
+                    loop_mode = Some(rest == "1");
+                }
                 "d" | "u" | "r" | "T" => {
                     let code: u16 = rest.parse().unwrap();
                     let Some(osc) = oscode(code) else {
@@ -238,6 +244,13 @@ pub fn run_case(case: &Case, names: &HashMap<String, u16>) {
                 "t" => {
                     let n: u64 = rest.parse().unwrap();
                     for _ in 0..n {
+                        if let Some(honour) = loop_mode {
+                            let can_block = k.can_block_update_idle_waiting(1);
+                            if can_block && honour {
+                                tick += 1;
+                                continue;
+                            }
+                        }
                         k.tick_ms(1, &None).expect("tick_ms");
                         tick += 1;
                         for ev in k.kbd_out.outputs.events.drain(..) {
